@@ -289,6 +289,9 @@ func (w *wbuf) u16(v uint64) { w.b = binary.LittleEndian.AppendUint16(w.b, uint1
 func (w *wbuf) u32(v uint64) { w.b = binary.LittleEndian.AppendUint32(w.b, uint32(v)) }
 func (w *wbuf) u64(v uint64) { w.b = binary.LittleEndian.AppendUint64(w.b, v) }
 func (w *wbuf) str(s string) {
+	if len(s) > 65535 {
+		panic("refcodec: string longer than 65535 bytes cannot be encoded")
+	}
 	w.u16(uint64(len(s)))
 	w.b = append(w.b, s...)
 }
